@@ -30,8 +30,9 @@ META = dict(
          "the property says about every stored phase: canonical result, operator = assign form, class predicates of the result.",
     note="TLC integers are 32 bit: operands in traces stay below 2^15; operands up to 2^40 are run but judged by the harness only (range, "
          "reducedness, congruence modulo 2 in i128) and operands near the 64-bit limit are not covered; the f64 round trip is a harness-side "
-         "1e-12 comparison (floats are outside TLA+); Phase::new on Ratio::new_raw values (unreduced / negative denominator, which nothing in "
-         "quizx produces) is recorded as an observation, not judged; an uncatchable crash (stack overflow) is detected by a dry run in a child "
+         "1e-12 comparison (floats are outside TLA+); Phase::new on a REDUCED fraction written with a negative denominator (Ratio::new_raw(n, -d)) is judged "
+         "(RawCanonical, RawClassified: \"negative denominators\" are named in the property); UNREDUCED raw ratios break num::Ratio's own invariant and are "
+         "recorded as an observation only; an uncatchable crash (stack overflow) is detected by a dry run in a child "
          "process and reported as a NoCrash violation")
 
 ENGINE = {"name": "phase", "path": "spec/Phase.tla mc/MC_Phase.tla mc/Trace_Phase.tla harness/src/eng_phase.rs",
@@ -86,8 +87,8 @@ def plan(prop, tier, seed, t0):
         "operands validated by TLC are below 2^15 (32-bit TLC integers); operands up to 2^40 are judged by the harness "
         "(range, reducedness, congruence in i128); operands near the 64-bit limit are NOT covered",
         "the f64 round trip is decided by the harness (|to_f64(from_f64(f)) - f mod 2| <= 1e-12, |f| <= 1000), not by TLC",
-        "Phase::new on Ratio::new_raw inputs (unreduced or negative denominator) is outside the quantifier: observed "
-        "(trace_stats.raw_*), not judged",
+        "Phase::new on UNREDUCED Ratio::new_raw inputs is outside the quantifier: observed (trace_stats.raw_*), not judged; reduced fractions "
+        "with a negative denominator are judged",
     ]
 
     def extra(stats, groups):
